@@ -85,6 +85,10 @@ type Scenario struct {
 	Scribble      bool      `json:"scribble,omitempty"`     // overwrite the input right after Parse returns
 	SharedCodec   bool      `json:"shared_codec,omitempty"` // scheduling points at shared-state accesses inside the codec
 	Trailer       int       `json:"trailer,omitempty"`      // bytes of an incomplete trailing frame appended after the last frame
+	// Tail (hex): raw bytes appended after everything else that the de-framer has to cope with on
+	// its own - a header whose length field is below 8, garbage (C07: the framing is lost from
+	// here on, so nothing after this point is attributed to a sent frame)
+	Tail string `json:"tail,omitempty"`
 
 	Producers   []Producer `json:"producers,omitempty"`
 	WriteStalls []int      `json:"write_stalls_us,omitempty"`
